@@ -186,9 +186,13 @@ func runCase(c c11Case) (problem string, stats map[string]int) {
 					return
 				default:
 				}
-				_, _, h := x.D.DoGet(drv.GetSpec{NI: "all", AFT: "ALL"}.GetReq(), -1)
+				items, _, h := x.D.DoGet(drv.GetSpec{NI: "all", AFT: "ALL"}.GetReq(), -1)
 				if h != "" {
 					fail(h + "\n" + stacks())
+					return
+				}
+				if p := drv.ClosedSnapshot(items); p != "" {
+					fail(p)
 					return
 				}
 				mu.Lock()
